@@ -14,6 +14,11 @@ def world(key, symbolic, modules, extra=None, extra_by_module=None, nodes=False,
     k = (key, bool(symbolic))
     if k not in _WORLDS:
         _WORLDS[k] = World(modules, symbolic=symbolic, extra=extra, extra_by_module=extra_by_module, nodes=nodes, desugar=desugar, clone_classes=clone_classes)
+        # block functions index the blocks they are given -- real ndarrays (object arrays of symbolic reals) as well as
+        # symbolic arrays -- with slices they build themselves: there `slice` stays the builtin (it may hold symbolic members;
+        # only code that calls slice.indices(<symbolic length>) needs the shim's slice objects)
+        if "dask_array._chunk" in _WORLDS[k].ns:
+            _WORLDS[k].ns["dask_array._chunk"]["slice"] = slice
     return _WORLDS[k]
 
 
